@@ -74,12 +74,20 @@ fn check_string(ctx: &mut Ctx, family: &str, idx: u64, s: &str) {
             panic!("VERIF-ORACLE Name::try_from(&str) and Name::new disagree");
         }
         direct.map(|n| {
+            // the unchecked constructor and the label-slice conversion build the same name out of a text that passes the checks
+            let unchecked = Name::new_unchecked(s);
+            let labels: Vec<simple_dns::Label> = n.get_labels().to_vec();
+            let from_labels = Name::from(&labels[..]);
+            if bridge::obs_name(&unchecked) != bridge::obs_name(&n) || unchecked != n || bridge::obs_name(&from_labels) != bridge::obs_name(&n) || unchecked.to_string() != n.to_string() {
+                panic!("VERIF-ORACLE-UNCHECKED");
+            }
             let text = n.to_string();
             let again = Name::new(&text).map(|m| m == n).unwrap_or(false);
             (bridge::obs_name(&n), text, again)
         })
     });
     match (got, want) {
+        (Err(pn), _) if pn.message.contains("VERIF-ORACLE-UNCHECKED") => ctx.violation("validation", "new-unchecked-differs-from-new", format!("Name::new_unchecked({:?}) / Name::from(labels) is not the name Name::new gives", s), case()),
         (Err(pn), _) if pn.message.contains("VERIF-ORACLE") => ctx.violation("validation", "try-from-str-differs-from-new", format!("Name::try_from({:?}) and Name::new({:?}) disagree", s, s), case()),
         (Err(pn), _) => ctx.panic_violation("Name::new/to_string", &pn, case()),
         (Ok(None), None) => ctx.count("rejected_as_expected"),
